@@ -40,10 +40,67 @@ def bad_leaf(spec, value):
     return None
 
 
+def bounds_sweep(ctx: Ctx, extended: bool = False) -> None:
+    """For every adapter with a `bounds` op: the interval the Lean model PROVES for each observation leaf (theorems <env>_step_obs_in_bounds)
+    must be contained in the interval the real observation_spec declares (else the declared spec is no longer shown to cover what the
+    environment can emit: a broken obligation), and every value emitted along rollouts must lie in the proven interval (else the model is wrong)."""
+    import jax
+
+    import envlib
+    from envlib import Runner, rollouts
+
+    drv = ctx.get_driver()
+    for ad in envlib.load_adapters().values():
+        if "bounds" not in ad.ops:
+            continue
+        rng = np.random.default_rng([ctx.seed, sum(map(ord, ad.name))])
+        for cfg in ad.configs(ctx.tier):
+            if cfg.meta.get("only"):
+                continue
+            env = cfg.build()
+            m = drv.call(f"{ad.lean}.bounds", cfg=cfg.cfg)
+            leaves = dict(speclib.flatten_spec(env.observation_spec))
+            for path, iv in m.items():
+                ctx.evaluations += 1
+                if path not in leaves:
+                    ctx.disagree(ad.name, f"bounds op names the leaf {path!r} which observation_spec does not have", {"config": cfg.cid})
+                    continue
+                sp = leaves[path]
+                lo = None if iv.get("lo") is None else common.unrat(iv["lo"])
+                hi = None if iv.get("hi") is None else common.unrat(iv["hi"])
+                dmin = getattr(sp, "minimum", None)
+                dmax = getattr(sp, "maximum", None)
+                if dmin is not None and (lo is None or float(np.min(np.asarray(dmin, dtype=np.float64))) > lo + 1e-6 * (1 + abs(lo))):
+                    ctx.broken.append(f"{ad.name}/{cfg.cid}: declared minimum of {path} ({np.min(np.asarray(dmin))}) is above the lower bound {lo} proved for the model "
+                                      f"(theorem Props.C01.{ad.lean}_step_obs_in_bounds no longer covers the declared spec)")
+                if dmax is not None and (hi is None or float(np.max(np.asarray(dmax, dtype=np.float64))) < hi - 1e-6 * (1 + abs(hi))):
+                    ctx.broken.append(f"{ad.name}/{cfg.cid}: declared maximum of {path} ({np.max(np.asarray(dmax))}) is below the upper bound {hi} proved for the model "
+                                      f"(theorem Props.C01.{ad.lean}_step_obs_in_bounds no longer covers the declared spec)")
+                ctx.count(f"{ad.name}.leaves_with_proved_bounds")
+            # emitted values inside the proven interval
+            runner = Runner(env)
+            for r in rollouts(ad, env, runner, rng, 3 if ctx.quick else 10):
+                obs = r["ts"].observation
+                vals = dict(speclib.flatten_value(env.observation_spec, obs))
+                for path, iv in m.items():
+                    if path not in vals:
+                        continue
+                    a = np.asarray(vals[path], dtype=np.float64)
+                    if a.size == 0:
+                        continue
+                    ctx.evaluations += 1
+                    lo = None if iv.get("lo") is None else common.unrat(iv["lo"])
+                    hi = None if iv.get("hi") is None else common.unrat(iv["hi"])
+                    if (lo is not None and a.min() < lo - 1e-5 * (1 + abs(lo))) or (hi is not None and a.max() > hi + 1e-5 * (1 + abs(hi))):
+                        ctx.disagree(ad.name, f"emitted value of {path} in [{a.min()}, {a.max()}] leaves the interval [{lo}, {hi}] proved for the model",
+                                     {"config": cfg.cid, "reset_seed": r.get("seed"), "t": r.get("t")})
+
+
 def run(ctx: Ctx, extended: bool = False) -> None:
     import jax
     import jax.numpy as jnp
 
+    bounds_sweep(ctx, extended)
     rng = np.random.default_rng(ctx.seed)
     drv = ctx.get_driver()
     ents = catalog.entries("thorough" if (extended or not ctx.quick) else "quick")
